@@ -58,6 +58,8 @@ def _slice_bounds(cx, sl, extent):
         return c
 
     if step == 1:
+        if start is None and stop is None:
+            return 0, extent, 1
         a = 0 if start is None else clampterm(start)
         b = extent if stop is None else clampterm(stop)
         n = T.sub(b, a)
